@@ -1,17 +1,26 @@
 (** C01 - compiling any source text ends in a program or positioned errors (partial).
     What is proved here concerns the model's [compile] (Lexer/Literals/Parser/Macros) and the
     position arithmetic of [pos_for]; that [compile] accepts exactly what the real ANTLR parser
-    accepts, with the same tree, is the correspondence run.  Not proved: a derivation relation
-    for the grammar ([C01_accept_sound]) and that the parser's fuel always suffices
-    ([C01_fuel_sufficient]) - out-of-fuel is a distinct outcome the run reports if it occurs. *)
+    accepts, with the same tree, is the correspondence run.  The parser's fuel suffices on
+    every input ([C01_fuel_sufficient]), so [compile] has two outcomes only and a rejection
+    is the grammar's.  Not proved: a derivation relation for the grammar ([C01_accept_sound]). *)
 From Coq Require Import String Ascii.
 From Cel.Model Require Import Parser Position.
-From Cel.Proofs Require Import ParserProofs.
+From Cel.Proofs Require Import ParserProofs ParserTotal.
 
-(** [compile] is total with exactly these outcomes. *)
+(** The fuel [compile] gives its parser (16 * (tokens + 2)) is enough for every token list
+    and every source text: the out-of-fuel answer never occurs. *)
+Theorem C01_fuel_sufficient : forall src ts,
+  compile src <> COutOfFuel /\ parse_tokens ts <> COutOfFuel.
+Proof. intros src ts. split; [apply compile_never_out_of_fuel|apply parse_never_out_of_fuel]. Qed.
+
+(** [compile] is total with exactly two outcomes: a program, or a rejection. *)
 Theorem C01_total : forall src,
-  (exists e, compile src = CExpr e) \/ compile src = CReject \/ compile src = COutOfFuel.
-Proof. intros src. destruct (compile src); eauto. Qed.
+  (exists e, compile src = CExpr e) \/ compile src = CReject.
+Proof.
+  intros src. pose proof (compile_never_out_of_fuel src) as H.
+  destruct (compile src); eauto. now elim H.
+Qed.
 
 (** The position computed for a byte offset (SourceInfo::pos_for, used for macro errors)
     exists for every offset inside the source and never points beyond it: the line is an
@@ -48,6 +57,7 @@ Proof. vm_compute. reflexivity. Qed.
 Example C01_ex_unknown : unknown_start 36 = true /\ compile $"a $ b" = CReject.
 Proof. split; vm_compute; reflexivity. Qed.
 
+Print Assumptions C01_fuel_sufficient.
 Print Assumptions C01_total.
 Print Assumptions C01_pos_in_source.
 Print Assumptions C01_unknown_char_rejected.
